@@ -4,7 +4,7 @@ import json, os, subprocess, sys, tempfile, time
 from concurrent.futures import ThreadPoolExecutor
 from . import mutants as cat
 
-EQUIVALENT = {"c01e", "c04b", "c05f", "c12d", "c15b", "c19a", "c19b"}
+EQUIVALENT = {"c01e", "c04b", "c05f", "c13a", "c12d", "c15b", "c19a", "c19b"}
 KILLED_BY_SUITE = set("c01a c01b c01c c01f c02c c02d c05g c06a c06b c06d c06e c07a c07b c07c c09a c11a c11b c11d c12a c12c c13b c13d c14c c15a c17c c20c".split())
 
 
